@@ -294,6 +294,55 @@ def psi4_case(task):
     return {'task': [l, m, list(centre), list(Ns)], 'errs': errs}
 
 
+def psi4_alias_case(task):
+    """Azimuthal content on small grids with lmax + 1 > min(N): a field that
+    is trilinear in (x, y, z) is interpolated exactly, so a field of a single
+    azimuthal order m must leave every other order empty (no aliasing from
+    an angular grid that does not grow with lmax)."""
+    try:
+        return _psi4_alias_case(task)
+    except Exception:      # noqa: BLE001
+        import traceback
+        return {'task': list(task[:1]), 'bad': [('raised',
+                traceback.format_exc()[-300:])]}
+
+
+def _psi4_alias_case(task):
+    from aurel.core import AurelCore
+    from aurel.finitedifference import FiniteDifference
+    name, shape, centre, lmax, radius = task
+    param = {'Nx': shape[0], 'Ny': shape[1], 'Nz': shape[2], 'xmin': -2.0,
+             'ymin': -2.0, 'zmin': -2.0, 'dx': 4.0 / (shape[0] - 1),
+             'dy': 4.0 / (shape[1] - 1), 'dz': 4.0 / (shape[2] - 1)}
+    with quiet():
+        fd = FiniteDifference(param, boundary='no boundary', fd_order=2,
+                              verbose=False)
+        rel = AurelCore(fd, verbose=False, lmax=lmax, center=centre,
+                        extract_radii=[radius])
+    X, Y, Z = fd.x - centre[0], fd.y - centre[1], fd.z - centre[2]
+    if name == 'x+iy':          # azimuthal order +1 only
+        psi, allowed = X + 1j * Y, {1}
+    else:                       # 'xy': orders +2 and -2 only
+        psi, allowed = X * Y + 0j, {2, -2}
+    rel.data['Weyl_Psi4r'] = np.real(psi).copy()
+    rel.data['Weyl_Psi4i'] = np.imag(psi).copy()
+    rel.freeze_data()
+    with quiet():
+        out = rel['Psi4_lm']
+    c = out[radius]
+    big = max(abs(v) for v in c.values())
+    worst, where = 0.0, None
+    for (l, m), v in c.items():
+        if m not in allowed and abs(v) > worst:
+            worst, where = abs(v), (l, m)
+    bad = []
+    if not (big > 1e-3 and worst <= 1e-9 * big):
+        bad.append(('azimuthal-aliasing', name, list(shape), lmax,
+                    f'|a{where}| = {worst:.2e}, largest allowed mode '
+                    f'{big:.2e}'))
+    return {'task': [name, list(shape), lmax], 'bad': bad}
+
+
 def main(tier):
     run = runner.Run(PID, tier, "exploration")
     H.selftest()
@@ -337,6 +386,16 @@ def main(tier):
                           f"sYlm({s},{l},{m}) at theta = 0 or pi exactly: "
                           f"not finite / discontinuous / wrong size "
                           f"({r.get('pole')})", {'s': s, 'l': l, 'm': m})
+    alias = [('x+iy', (6, 6, 6), (0.0, 0.0, 0.0), 12, 1.5),
+             ('xy', (10, 6, 8), (0.2, -0.1, 0.3), 11, 1.2),
+             ('x+iy', (6, 6, 6), (0.0, 0.0, 0.0), 4, 1.5),
+             ('xy', (5, 7, 6), (0.0, 0.0, 0.0), 8, 1.0)]
+    for r in runner.pmap(psi4_alias_case, alias, workers=4):
+        total += 1
+        run.seen(('alias',) + tuple(map(str, r['task'])))
+        for b in r['bad']:
+            run.violation(f"C20:Psi4_lm:{b[0]}", f"{b}"[:400],
+                          {'alias': r['task']})
     # (c) analysis o synthesis = identity on every unit coefficient set
     for r in runner.pmap(synth_case, [(s, 6) for s in SPINS], workers=5):
         total += r['sets']
